@@ -21,6 +21,12 @@ def run(rep, props, replay=None):
     rng = np.random.default_rng([C.seed(), 10])
     runq = C.CoqRun("C10", IMPORTS)
     todo = []
+    fd.dtype_monitor(rep, rng, {
+        "center()": lambda d: d.center().values, "normalize()": lambda d: d.normalize().values,
+        "standardize()": lambda d: d.standardize().values, "standardize(center=False)": lambda d: d.standardize(center=False).values,
+        "rescale() values": lambda d: d.rescale()[0].values, "rescale() weight": lambda d: d.rescale()[1],
+        "rescale(use_argvals_stand=True) weight": lambda d: d.rescale(use_argvals_stand=True)[1],
+        "rescale(weights=4) values": lambda d: d.rescale(weights=4.0)[0].values}, "centering / normalising / standardising / rescaling")
     n_cases = 18 if quick else 240
     for i in range(n_cases):
         kind = fd.GRID_KINDS[i % len(fd.GRID_KINDS)]
